@@ -255,10 +255,22 @@ func runC18(r *Run, rng *Rng, thorough bool) {
 				safely(func() { res = fmtErrText(ev.Verify(kk.pub)) })
 			case 2:
 				name = "GetInstanceID"
-				safely(func() { p := ev.GetInstanceID(); res = fmt.Sprint(p != nil); if p != nil { res += hx(*p) } })
+				safely(func() {
+					p := ev.GetInstanceID()
+					res = fmt.Sprint(p != nil)
+					if p != nil {
+						res += hx(*p)
+					}
+				})
 			case 3:
 				name = "GetImplementationID"
-				safely(func() { p := ev.GetImplementationID(); res = fmt.Sprint(p != nil); if p != nil { res += hx(*p) } })
+				safely(func() {
+					p := ev.GetImplementationID()
+					res = fmt.Sprint(p != nil)
+					if p != nil {
+						res += hx(*p)
+					}
+				})
 			default:
 				name = "MarshalJSON"
 				safely(func() { b, e := ev.MarshalJSON(); res = string(b) + fmtErr(e) })
